@@ -29,7 +29,6 @@ import (
 	"net/http"
 	"net/http/httptest"
 	"net/url"
-	"os"
 	"sort"
 	"strconv"
 	"strings"
@@ -225,21 +224,32 @@ type hist struct {
 	algn bool
 	ns0  uint64
 
-	mu       sync.Mutex
-	subs     map[callTag]*submission
-	accepted []*submission // in call order (sequential phases) - only used by drivers to pick targets
-	sths     []*ct.SignedTreeHead
-	fails    []string
-	subjects []*subject
-	nsub     int
-	clockNS  int64
-	conc     bool
-	tags     map[string]int
+	mu        sync.Mutex
+	subs      map[callTag]*submission
+	accepted  []*submission // in call order (sequential phases) - only used by drivers to pick targets
+	sths      []*ct.SignedTreeHead
+	fails     []string
+	twinFails []string
+	subjects  []*subject
+	nsub      int
+	clockNS   int64
+	conc      bool
+	tags      map[string]int
+	pool      []*subject
+	inRound   bool
+	stray     *pki.Entity
 }
 
 func (h *hist) fail(f string, a ...interface{}) {
 	h.mu.Lock()
 	h.fails = append(h.fails, fmt.Sprintf(f, a...))
+	h.mu.Unlock()
+}
+
+// twinFail records a failure of the literal property that is due to twin precertificates only.
+func (h *hist) twinFail(f string, a ...interface{}) {
+	h.mu.Lock()
+	h.twinFails = append(h.twinFails, fmt.Sprintf(f, a...))
 	h.mu.Unlock()
 }
 
@@ -330,8 +340,7 @@ func (h *hist) submitBad(tag callTag, kind string, pre bool) {
 	case "empty":
 		body = []byte(`{"chain": []}`)
 	case "untrusted":
-		e := pki.Issue(pki.Opts{CN: "stray.example", KeyIdx: 12}, h.w.untrusted)
-		body, _ = json.Marshal(ct.AddChainRequest{Chain: [][]byte{e.DER, h.w.untrusted.DER}})
+		body, _ = json.Marshal(ct.AddChainRequest{Chain: [][]byte{h.stray.DER, h.w.untrusted.DER}})
 	}
 	p := ct.AddChainPath
 	if pre {
@@ -360,6 +369,9 @@ func (h *hist) getSTH(tag callTag) *ct.SignedTreeHead {
 func (h *hist) consistency(tag callTag, first, second uint64, inRange bool) {
 	pr, err := h.lc.GetSTHConsistency(h.ctx(tag), first, second)
 	if !inRange {
+		if err == nil && first > 0 && second > uint64(h.log.Size()) {
+			h.fail("get-sth-consistency(%d,%d) answered although the log has only %d entries", first, second, h.log.Size())
+		}
 		return
 	}
 	if err != nil {
@@ -375,6 +387,9 @@ func (h *hist) consistency(tag callTag, first, second uint64, inRange bool) {
 func (h *hist) entryAndProof(tag callTag, idx, size uint64, inRange bool) {
 	rsp, err := h.lc.GetEntryAndProof(h.ctx(tag), idx, size)
 	if !inRange {
+		if err == nil && size > uint64(h.log.Size()) {
+			h.fail("get-entry-and-proof(%d,%d) served an entry for a tree the log does not have (%d entries)", idx, size, h.log.Size())
+		}
 		return
 	}
 	if err != nil {
@@ -394,6 +409,9 @@ func (h *hist) entryAndProof(tag callTag, idx, size uint64, inRange bool) {
 func (h *hist) entries(tag callTag, start, end int64, inRange bool) {
 	rsp, err := h.lc.GetRawEntries(h.ctx(tag), start, end)
 	if !inRange {
+		if err == nil && start >= int64(h.log.Size()) {
+			h.fail("get-entries(%d,%d) answered although the log has only %d entries", start, end, h.log.Size())
+		}
 		return
 	}
 	if err != nil {
@@ -414,6 +432,9 @@ func (h *hist) entries(tag callTag, start, end int64, inRange bool) {
 func (h *hist) proofByHash(tag callTag, hash []byte, size uint64, expectIdx int64) {
 	rsp, err := h.lc.GetProofByHash(h.ctx(tag), hash, size)
 	if expectIdx < 0 {
+		if err == nil && (expectIdx == -1 || size > uint64(h.log.Size())) {
+			h.fail("get-proof-by-hash(size=%d) answered for an unknown hash or a tree the log does not have (%d entries)", size, h.log.Size())
+		}
 		return
 	}
 	if err != nil {
@@ -427,16 +448,30 @@ func (h *hist) proofByHash(tag callTag, hash []byte, size uint64, expectIdx int6
 
 // ---------------------------------------------------------------- random operations
 
+// freshSubject returns a certificate not submitted before.  Certificates are issued by the main
+// goroutine only (pki.Issue and the history's PRNG are not safe for concurrent use): concurrent
+// rounds draw from a pool filled beforehand.
 func (h *hist) freshSubject() *subject {
 	h.mu.Lock()
-	h.nsub++
-	n := h.nsub
-	h.mu.Unlock()
-	s := h.w.leaf(h.r, n)
-	h.mu.Lock()
+	defer h.mu.Unlock()
+	var s *subject
+	if len(h.pool) > 0 {
+		s, h.pool = h.pool[0], h.pool[1:]
+	} else if h.inRound {
+		panic("subject pool exhausted in a concurrent round")
+	} else {
+		h.nsub++
+		s = h.w.leaf(h.r, h.nsub)
+	}
 	h.subjects = append(h.subjects, s)
-	h.mu.Unlock()
 	return s
+}
+
+func (h *hist) fillPool(n int) {
+	for i := 0; i < n; i++ {
+		h.nsub++
+		h.pool = append(h.pool, h.w.leaf(h.r, h.nsub))
+	}
 }
 
 // op performs one random operation; rr is the PRNG stream of the calling worker.
@@ -504,11 +539,13 @@ func (h *hist) op(rr *rand.Rand, tag callTag) {
 			h.tagf("op:proof-unknown-or-beyond")
 			hh := sha256.Sum256([]byte{byte(rr.Intn(256))})
 			ts := 1 + uint64(rr.Intn(int(size)+2))
+			mode := int64(-1) // unknown hash
 			if rr.Intn(2) == 0 {
 				hh = [32]byte(h.log.LeafAt(rr.Intn(int(size))).MerkleHash)
 				ts = size + 1
+				mode = -2 // known leaf, tree size beyond the log
 			}
-			h.proofByHash(tag, hh[:], ts, -1)
+			h.proofByHash(tag, hh[:], ts, mode)
 			return
 		}
 		i := rr.Intn(int(size))
@@ -704,6 +741,7 @@ func runHistory(w *world, r *rand.Rand, conc bool, caseNo int) lib.Case {
 	li := &ctutil.LogInfo{Description: "c06", Client: lc, Verifier: w.verifier, PublicKey: w.pubDER}
 	h := &hist{w: w, r: r, env: env, log: lg, rt: rt, lc: lc, li: li, maxr: maxr, algn: algn, ns0: ns0,
 		subs: map[callTag]*submission{}, conc: conc, tags: map[string]int{}, clockNS: clock0.UnixNano()}
+	h.stray = pki.Issue(pki.Opts{CN: "stray.example", KeyIdx: 12}, w.untrusted)
 
 	call := 0
 	next := func() callTag { call++; return callTag{worker: 0, call: call} }
@@ -755,6 +793,8 @@ func runHistory(w *world, r *rand.Rand, conc bool, caseNo int) lib.Case {
 		for rd := 0; rd < rounds; rd++ {
 			advance() // the clock stands still during a concurrent round
 			nw := 3 + r.Intn(4)
+			h.fillPool(7 * nw) // at most 6 operations per worker
+			h.inRound = true
 			g := newGate(nw + 1)
 			lg.Gate = g.enter
 			var wg sync.WaitGroup
@@ -788,6 +828,7 @@ func runHistory(w *world, r *rand.Rand, conc bool, caseNo int) lib.Case {
 			g.schedule(r)
 			wg.Wait()
 			lg.Gate = nil
+			h.inRound, h.pool = false, nil
 		}
 	}
 
@@ -856,18 +897,22 @@ func runHistory(w *world, r *rand.Rand, conc bool, caseNo int) lib.Case {
 			// the refined statement proved in Props/C06.v: a single index unless the certificate has
 			// a twin precertificate (same TBSCertificate, same millisecond); the entry decodes to the
 			// certificate and to the chain of the submission that CREATED the leaf
-			twin := strings.Contains(sb.sub.kind, "twin") && os.Getenv("VERIF_C06_STRICT") == ""
+			// twin precertificates are a recorded known finding (known_findings.json, C06-twin-precertificates):
+			// the literal property fails on them; they are reported under their own key
+			twin := strings.Contains(sb.sub.kind, "twin")
 			if len(at) != 1 && !twin {
 				h.fail("SCT leaf of %s found at %d indices %v", sb.sub.name, len(at), at)
 			}
 			if len(at) != 1 && twin {
 				h.tagf("observed:twin-leaf-at-two-indices")
+				h.twinFail("SCT leaf of %s found at %d indices %v", sb.sub.name, len(at), at)
 			}
 			creator := h.creatorOf(sb)
 			certOK := bytes.Equal(rle.Cert.Data, sb.sub.der)
 			if twin && !certOK {
 				// the lowest index carries the OTHER twin's certificate: the literal property fails here
 				h.tagf("observed:twin-entry-decodes-to-other-certificate")
+				h.twinFail("entry %d found for the SCT of %s decodes to the other twin's certificate", idx, sb.sub.name)
 				certOK = strings.Contains(h.subjectOfDER(rle.Cert.Data), "twin")
 			}
 			if !certOK {
@@ -1249,11 +1294,15 @@ func (h *hist) emit(caseNo int) lib.Case {
 	if len(h.fails) > 0 {
 		sort.Strings(h.fails)
 		note = h.fails[0]
+	} else if len(h.twinFails) > 0 {
+		// the key is used only when EVERY failure of the history is of the twin-precertificate class
+		sort.Strings(h.twinFails)
+		note = "twin-precertificates: " + h.twinFails[0]
 	}
 	return lib.Case{Coq: term,
 		Input:  map[string]interface{}{"mode": mode, "max_get_entries": h.maxr, "align": h.algn, "steps": inJ},
 		Impl:   map[string]interface{}{"observations": outJ, "oracle_failures": h.fails, "final_size": h.log.Size()},
-		PropOK: len(h.fails) == 0, Note: note, Tags: tags}
+		PropOK: len(h.fails) == 0 && len(h.twinFails) == 0, Note: note, Tags: tags}
 }
 
 // ---------------------------------------------------------------- main
